@@ -8,6 +8,12 @@ theorem `canonical_form_is_normal_form` rests).
 Direct oracle (independent of graphiq and of the model): the exact overlap |<a|b>|^2 computed (i) for n <= 5 from dense density
 matrices tr(rho_a rho_b), (ii) for every n by GF(2) elimination: 0 if the groups contain P and -P, else 2^-(n - dim(A ∩ B));
 symmetry; fidelity = 1 iff same signed group; canonical form / equality depend only on the signed group and distinguish signs.
+Formal specification check (n <= 3): the Lean predicates of the fidelity theorems (`Orth`, the common subgroup A ∩ B) are evaluated on
+every pair through their brute-force executable versions (`stab.overlap`: `orthB_iff`, `commonB_iff` proved exact) and compared with
+the REAL fidelity and with the elimination oracle — so the statement the theorems are about is itself tied to the code's values.
+The hypothesis `hzero` of the fidelity theorems (the synthesis of the first argument reached |0..0>) is evaluated by the model on both
+arguments of every pair (`stab.inv ... zero=`); a wrong fidelity with `zero=1` on both would contradict the theorems and is a VIOLATION,
+with `zero=0` it is the known finding D42.
 """
 import numpy as np
 
@@ -19,12 +25,13 @@ LEVEL = "proof"
 TRUSTED_BASE = [
     "Lean 4.33 kernel",
     "hand-written model GraphiqModel/Model/StabTableau.lean (canonical_form, inverse_circuit, inner_product) tied to stabilizer.py/metric.py by this correspondence run",
-    "stabilizer inner-product formula |<a|b>|^2 = 0 or 2^-(n-dim(A∩B)) (textbook), cross-checked against dense matrices for n<=5 on every run",
+    "stabilizer inner-product formula |<a|b>|^2 = 0 (if P in A, -P in B) or 2^-(n-dim(A∩B)) (textbook; the Lean theorems prove inner_product = this group-level value under hzero, the Hilbert-space reading is cited), cross-checked against dense matrices for n<=5 on every run",
     "harness, line protocol, independent Python GF(2) elimination",
 ]
 ASSUMPTIONS = ["inputs are valid Clifford tableaux of pure states"]
 
 KEY_D42 = "fidelity:inverse_circuit-incomplete-synthesis"
+LEAN_SPEC_MAX_N = 3  # the brute-force executable specification enumerates 2^n x 2^n products
 
 
 def overlap_spec(a, b):
@@ -125,6 +132,9 @@ def check_pair(res, a, b, tag, pending, same=None):
              f"stab.inv {su.stab_args(b.to_stabilizer())}",
              # the verified shape checker (isCanon_sound) on the canonical form the REAL code returned
              f"stab.iscanon {su.stab_args(ca if ca is not None else a.to_stabilizer())}"]
+    if n <= LEAN_SPEC_MAX_N:
+        # the Lean specification predicates themselves (Orth, common subgroup), through their proved-exact executable versions
+        lines.append(f"stab.overlap {su.stab_args(a.to_stabilizer(), 'a')} {su.stab_args(b.to_stabilizer(), 'b')}")
     pending.append((lines, inp, f_ab, f_ba, ca, spec, fails, same_state))
 
 
@@ -133,7 +143,22 @@ def flush(res, drv, pending):
     k = 0
     for (ls, inp, f_ab, f_ba, ca, spec, fails, same_state) in pending:
         r_ab, r_ba, r_c, r_ia, r_ib, r_shape = reps[k : k + 6]
-        k += 6
+        r_ov = reps[k + 6] if len(ls) > 6 else None
+        k += len(ls)
+        if r_ov is not None:
+            # formal specification (Lean `Orth` / `|A ∩ B|`, brute force) against the REAL fidelity
+            if r_ov["_status"] != "ok":
+                res.exact_break("stab.overlap:error", input=inp, impl=f_ab, model=r_ov["_raw"][:200])
+            else:
+                n_q = int(inp["a"].split()[0].split("=")[1])
+                lean_val = 0.0 if r_ov.get("orth") == "1" else int(r_ov["common"]) / float(2 ** n_q)
+                res.count("errors", "lean-spec-evaluated")
+                if abs(lean_val - fid_value(spec)) > 1e-12:
+                    res.violation("oracle:lean-spec-inconsistent", "the Lean specification (Orth / |A∩B|, evaluated by its executable version) "
+                                  "disagrees with the harness's independent elimination oracle", input=inp, lean=r_ov["_raw"][:100], spec=str(spec))
+                    continue
+                if abs(lean_val - f_ab) > 1e-12 and not any(f[0] == "fidelity:wrong-value" for f in fails):
+                    fails.append(("fidelity:wrong-value", f"fidelity {f_ab} differs from the Lean specification value {lean_val}"))
         res.nontrivial(inp["a"], inp["b"])
         res.branch([("zero" if spec[0] == "zero" else f"k={spec[1]}") + (":same" if same_state else "")])
         for rep, f, nm in ((r_ab, f_ab, "ab"), (r_ba, f_ba, "ba")):
